@@ -530,6 +530,9 @@ func (fs *Facts) entryFactsFor(g *ssa.Function) FactSet {
 			return nil, false
 		}
 		for _, f := range at {
+			// facts about the caller's own values stay true while the helper runs (SSA values never change) ...
+			tr.add(f)
+			// ... and facts about arguments are also facts about the parameters they are bound to
 			x, okx := mapv(f.X)
 			y, oky := mapv(f.Y)
 			if okx && oky && x != nil {
